@@ -126,7 +126,9 @@ class Acceptor:
             if p != exp:
                 self.v("turn-order", "turn of player %r started, expected player %r (previous %r of %d players); trace tail %r" % (
                     p, exp, self.prev_player, self.players, self.trace[-8:]))
-            if self.end_requested:
+            if self.end_requested and getattr(self, "turn_in_flight", False):
+                self.turn_in_flight = False
+            elif self.end_requested:
                 self.v("turn-after-end-request", "a new player turn (player %r) started although the game had been asked to end" % (p,))
             self.turns[p] = self.turns.get(p, 0) + 1
             self.cur = p
@@ -257,6 +259,9 @@ def check(case):
                 acc.ball_end_required = True
 
         def request_end():
+            # a turn whose player_turn_will_start is already queued was decided before this request: the acceptor must not
+            # count it as "started after the end request" (handlers see the event later than the game posted it)
+            acc.turn_in_flight = any(e[0] == "player_turn_will_start" for e in list(m.events.event_queue))
             acc.end_requested = True
             ball_must_end()
 
